@@ -592,7 +592,9 @@ func (r *chunkReader) ReadAt(data []byte, off int64) (readBytes int, err error) 
 			}
 		}
 
-		readBytes += copy(data[readBytes:], buffer.Bytes()[offset:])
+		if leafBytes := buffer.Bytes(); offset < int64(len(leafBytes)) {
+			readBytes += copy(data[readBytes:], leafBytes[offset:])
+		}
 		buffer.Unpin()
 
 		if !ok && !fromCache {
